@@ -38,8 +38,8 @@ def Conforms (c : Cfg) (P : Prog) (k len : Nat) (ctx : Ctx) (n : Node) : Prop :=
           t.limit = s.limit ∧ obs t = σ'
       | .error e => ∃ s1 s2, Steps c P s s1 ∧ s1.ip < P.code.size ∧ step c P s1 = .error (e, s2) ∧ obs s2 = σ'
 
-theorem conforms_of_sim {c : Cfg} {P : Prog} {k : Nat} {code : List LInstr} {ctx : Ctx} {n : Node}
-    (hcode : CodeAt P k code) (h : Sim c P ctx n code) : Conforms c P k (lsize code) ctx n := by
+theorem conforms_of_sim {c : Cfg} {P : LProg} {k : Nat} {code : List LInstr} {ctx : Ctx} {n : Node}
+    (hcode : CodeAt P k code) (h : Sim c P ctx n code) : Conforms c P.prog k (lsize code) ctx n := by
   intro s hip hlim hsc r σ' hev
   have hs : noPP (vm k s.stack s.scopes (obs s) c.budget) = noPP s := by
     obtain ⟨st, scs, ip, pp, mem, lim, cr, lg⟩ := s
@@ -57,7 +57,9 @@ theorem conforms_of_sim {c : Cfg} {P : Prog} {k : Nat} {code : List LInstr} {ctx
     have e4 := congrArg VM.limit htt
     have e5 := congrArg obs htt
     exact ⟨e1, e2, e3, e4.trans hlim.symm, e5⟩
-  | error e => exact hrun
+  | error e =>
+    obtain ⟨s1, s2, h1, h2, h3, h4, _⟩ := hrun
+    exact ⟨s1, s2, h1, h2, h3, h4⟩
 
 /-! ### the statements at full strength -/
 
@@ -89,8 +91,9 @@ theorem compile_correct_partial (n : Node) : ∀ (cfg : CompCfg) (pool pool' : P
       PoolExt pool' P.consts → FitsU16 code →
     ∀ (c : Cfg), EnvOK c cfg → Good (SmallColl c) n → ∀ (ctx : Ctx), Conforms c P (lsize pre) (lsize code) ctx n := by
   intro cfg pool pool' code F hc hF hinv hfl P pre post hP hK hfit c henv hg ctx
-  exact conforms_of_sim (codeAt_of_layout hP hfit)
-    (compile_sim hc hF hinv hfl hg hK henv (loopCase_holds c P) ctx)
+  let L : LProg := ⟨P, pre ++ code ++ post, hP, fun _ _ => True⟩
+  exact conforms_of_sim (P := L) (codeAt_of_layout rfl hfit)
+    (compile_sim hc hF hinv hfl hg hK henv (loopCase_holds c L) (allBlame_trivial c L (fun _ _ => trivial) n) ctx)
 
 /-- C05's balance statement is the shape of the success case: the stack found plus one value, the scope
     stack found — for every construct, loops included. -/
@@ -207,8 +210,10 @@ theorem compile_correct_stageA (n : Node) : ∀ (cfg : CompCfg) (pool pool' : Po
       PoolExt pool' P.consts → FitsU16 code →
     ∀ (c : Cfg), EnvOK c cfg → ∀ (ctx : Ctx), Conforms c P (lsize pre) (lsize code) ctx n := by
   intro cfg pool pool' code F hc hF hinv hfl hg P pre post hP hK hfit c henv ctx
-  exact conforms_of_sim (codeAt_of_layout hP hfit)
-    (compile_sim hc hF hinv hfl hg hK henv (fun _ _ _ _ _ _ _ _ _ _ _ _ h => h.elim) ctx)
+  let L : LProg := ⟨P, pre ++ code ++ post, hP, fun _ _ => True⟩
+  exact conforms_of_sim (P := L) (codeAt_of_layout rfl hfit)
+    (compile_sim hc hF hinv hfl hg hK henv (fun _ _ _ _ _ _ _ _ _ _ _ _ h => h.elim)
+      (allBlame_trivial c L (fun _ _ => trivial) n) ctx)
 
 theorem run_conforms_stageA (cfg : CompCfg) (n : Node) (cp : Compiled) (F : Val → Prop) (c : Cfg)
     (hc : compileProgram cfg n = .ok cp) (hF : AliasFree F) (hfl : FloatsIn F n) (hg : Good (fun _ => False) n)
